@@ -269,6 +269,24 @@ fn main() {
     );
     run.assumptions.push("the list of sources is non-empty (TrainLoader::from_files refuses an empty file list; MultiTrainDataGenerator is not given an empty list by any caller)".into());
     run.assumptions.push("seeds outside 0..8 are not covered for the weighted strategy; its order is only required to be reproducible".into());
+    // long sources: lengths around the powers of two a size threshold would sit at; also the largest
+    // seed (the weighted strategy seeds a generator from it)
+    {
+        let lens = tu_verif::enumerate::threshold_lengths(run.pick(8, 10));
+        run.bounds.insert("long_sources".into(), json!(format!("n in {lens:?}: source lengths [n], [n, 1], [1, n], [n, n - 1, 2] x every strategy x seeds {{0, 1, u64::MAX}} (the weighted strategy only for source lists without an empty source)")));
+        for (k, n) in lens.iter().enumerate() {
+            if !run.unit((nunits + k) as u64) {
+                continue;
+            }
+            for lens in [vec![*n], vec![*n, 1], vec![1, *n], vec![*n, *n - 1, 2]] {
+                for strategy in 0..STRATEGIES.len() {
+                    for seed in [0u64, 1, u64::MAX] {
+                        check(&mut run, &lens, strategy, seed);
+                    }
+                }
+            }
+        }
+    }
     let mut orders: Vec<Vec<usize>> = vec![];
     for unit in 0..nunits {
         let (lens, strategy) = (&vectors[unit / STRATEGIES.len()], unit % STRATEGIES.len());
